@@ -216,14 +216,15 @@ PROPS["C10"] = {
     "level_note": _thr_note + "All four cache flavours are also driven through the public theine package API (Close wrappers differ per flavour). The deadlocks and leaks this check found on the pinned tree are repaired (known_findings.json, fixed entries).",
     "assumptions": ["one writer goroutine, one closer; entry pool off"],
     "outside_bound": ["more than one writer", "preemption bound above 1 (RaceClose: 2 in thorough)"],
-    "quick": _c10(0) + [H("ZZ_C10_HybridClose", params={"PRE": 1}, reach=["closed"], bounds="store with secondary cache and one worker"),
+    "quick": _c10(0) + [H("ZZ_C10_HybridGetAfterClose", reach=["closed"], bounds="hybrid cache: Get / loading Get after Close of a key whose copy lives in the secondary tier"),
+                        H("ZZ_C10_HybridClose", params={"PRE": 1}, reach=["closed"], bounds="store with secondary cache and one worker"),
                         H("ZZ_C10_PublicClose", pkg="theine", params={"FLAVOUR": 0}, reach=["closed"], bounds="public API: Cache"),
                         H("ZZ_C10_PublicClose", pkg="theine", params={"FLAVOUR": 1}, reach=["closed"], bounds="public API: LoadingCache"),
                         H("ZZ_C10_PublicClose", pkg="theine", params={"FLAVOUR": 2}, reach=["closed"], bounds="public API: HybridCache"),
                         H("ZZ_C10_PublicClose", pkg="theine", params={"FLAVOUR": 3}, reach=["closed"], bounds="public API: HybridLoadingCache"),
                         H("ZZ_C10_RaceClose", params={"WQ": 64, "PRE": 1}, reach=["writer-and-closer-returned"], bounds="1 writer x3 vs Close, queue size 64, preemptions 1"),
                         H("ZZ_C10_RaceClose", params={"WQ": 1, "PRE": 1}, reach=["writer-and-closer-returned"], bounds="1 writer x3 vs Close, queue size 1, preemptions 1")],
-    "thorough": _c10(1) + [H("ZZ_C10_HybridClose", params={"PRE": 2}, reach=["closed"]),
+    "thorough": _c10(1) + [H("ZZ_C10_HybridGetAfterClose", reach=["closed"]), H("ZZ_C10_HybridClose", params={"PRE": 2}, reach=["closed"]),
                            H("ZZ_C10_PublicClose", pkg="theine", params={"FLAVOUR": 0}, reach=["closed"]), H("ZZ_C10_PublicClose", pkg="theine", params={"FLAVOUR": 1}, reach=["closed"]),
                            H("ZZ_C10_PublicClose", pkg="theine", params={"FLAVOUR": 2}, reach=["closed"]), H("ZZ_C10_PublicClose", pkg="theine", params={"FLAVOUR": 3}, reach=["closed"]),
                            H("ZZ_C10_RaceClose", params={"WQ": 64, "PRE": 2}, reach=["writer-and-closer-returned"], bounds="preemptions 2")],
@@ -236,8 +237,7 @@ PROPS["C01"] = {
     "level_note": _thr_note + "Store-level runs use the ideal reader/writer lock in place of RBMutex (whose own protocol is the second harness). Bounds: 2 clients x 2 ops, preemption bound 0 (quick) / 1 (thorough); plain, loading, entry-pool and doorkeeper configurations.",
     "assumptions": ["switching only at synchronisation operations is sound for data-race-free code (race freedom under the same bounds is C19's subject)"],
     "outside_bound": ["more than 2 clients or 2 operations each", "preemption bound above 1 (RBMutex harness: 2)", "timer ticks during the history"],
-    "quick": [H("ZZ_C10_HybridGetAfterClose", reach=["closed"], bounds="hybrid cache: Get / loading Get after Close of a key whose copy lives in the secondary tier"),
-              H("ZZ_C01_LoadDeleteLoad", params={"PRE": 1}, reach=["history-complete", "deleted-after-seeing-the-loaded-value"], bounds="three clients on a loading cache: load, read-then-delete, load again after the Delete returned; preemptions 1"),
+    "quick": [H("ZZ_C01_LoadDeleteLoad", params={"PRE": 1}, reach=["history-complete", "deleted-after-seeing-the-loaded-value"], bounds="three clients on a loading cache: load, read-then-delete, load again after the Delete returned; preemptions 1"),
               H("ZZ_C01_Linearizable", params={"PRE": 0}, reach=["history-complete"], bounds="2x2 ops, cap 1, preemptions 0"),
               H("ZZ_C01_Linearizable", params={"PRE": 0, "POOL": 1}, reach=["history-complete"], bounds="entry pool on"),
               H("ZZ_C01_Linearizable", params={"PRE": 0, "POOL": 1, "PRELUDE": 1}, reach=["history-complete"], bounds="entry pool on and holding a recycled entry"),
@@ -247,8 +247,7 @@ PROPS["C01"] = {
               H("ZZ_C13_LoadingWithWriter", params={"PRE": 1}, reach=["both-finished"], bounds="loading Get vs Set/Delete of the same key: load-and-store atomic with respect to writers"),
               H("ZZ_C05_DeleteVsReset", params={"PRE": 1}, reach=["drained"], bounds="Delete racing a Set of the same key: the old incarnation's eviction must not remove the new one"),
               H("ZZ_C01_RBMutex", params={"READERS": 2, "PRE": 2}, reach=["all-done"], bounds="1 writer, 2 readers, atomic granularity, preemptions 2")],
-    "thorough": [H("ZZ_C10_HybridGetAfterClose", reach=["closed"]),
-              H("ZZ_C01_LoadDeleteLoad", params={"PRE": 2}, reach=["history-complete", "deleted-after-seeing-the-loaded-value"], bounds="preemptions 2"),
+    "thorough": [H("ZZ_C01_LoadDeleteLoad", params={"PRE": 2}, reach=["history-complete", "deleted-after-seeing-the-loaded-value"], bounds="preemptions 2"),
               H("ZZ_C01_Linearizable", params={"PRE": 1}, reach=["history-complete"], bounds="2x2 ops, cap 1, preemptions 1"),
                  H("ZZ_C01_Linearizable", params={"PRE": 0, "POOL": 1, "POOLMODE": 2}, reach=["history-complete"], bounds="entry pool on, adversarial reuse"),
                  H("ZZ_C01_Linearizable", params={"PRE": 1, "POOL": 1, "POOLMODE": 2, "PRELUDE": 1}, reach=["history-complete"], bounds="entry pool holding a recycled entry, adversarial reuse, preemptions 1"),
